@@ -924,7 +924,10 @@ impl Ty {
             // a strongly typed `f32` doesn't mix with a `distinct f32`
             (non_distinct, Ty::Distinct { .. }) => {
                 assert_eq!(self, non_distinct);
-                if non_distinct.might_be_weak() && other.has_semantics_of(self) {
+                if non_distinct.might_be_weak()
+                    && other.has_semantics_of(self)
+                    && self.can_fit_into(other)
+                {
                     Some(other.clone())
                 } else {
                     None
@@ -932,7 +935,10 @@ impl Ty {
             }
             (Ty::Distinct { .. }, non_distinct) => {
                 assert_eq!(other, non_distinct);
-                if non_distinct.might_be_weak() && self.has_semantics_of(non_distinct) {
+                if non_distinct.might_be_weak()
+                    && self.has_semantics_of(non_distinct)
+                    && other.can_fit_into(self)
+                {
                     Some(self.clone())
                 } else {
                     None
